@@ -272,6 +272,7 @@ func lastEvName(rj core.Reject) string {
 type reportOpts struct {
 	Mine    []string                    // properties whose deviations are violations of the running check
 	Context func(rj core.Reject) string // refinement of the signature (fault runs)
+	Skip    func(rj core.Reject) bool   // deviations that belong to another check (reported there)
 }
 
 // Report turns the outcome of a TxTrace judgement into violations: deviations
@@ -285,7 +286,7 @@ func Report(r *core.Run, rejects []core.Reject, o reportOpts) {
 	others := map[string]int{}
 	for _, d := range r.TakeDevs() {
 		name := strings.TrimPrefix(d.Kind, "dev:")
-		if !mine[d.Prop] {
+		if !mine[d.Prop] || (o.Skip != nil && o.Skip(d)) {
 			others[d.Prop+":"+name]++
 			continue
 		}
@@ -300,6 +301,9 @@ func Report(r *core.Run, rejects []core.Reject, o reportOpts) {
 		r.Extra["deviations_recorded_for_other_properties"] = others
 	}
 	for _, rj := range rejects {
+		if o.Skip != nil && o.Skip(rj) {
+			continue
+		}
 		ev := lastEvName(rj)
 		sig := fmt.Sprintf("tx:%s:%s", rj.Kind, ev)
 		if o.Context != nil {
